@@ -106,6 +106,15 @@ theorem single_lock_ops_as_modelled :
 
 example : Gen.ListLocks.singleLockOps.length = 8 := rfl
 
+/-- the script-side variants `contains_owned` / `index_owned` run the same
+    `RawList` search under `self`'s lock and then drop the item they were given
+    on every path (found or not) — the balance of the item is the script's -/
+theorem owned_variants_release_item :
+    Gen.ListLocks.ownedVariants =
+      [("contains_owned", "contains", true), ("index_owned", "index", true)] := rfl
+
+example : Gen.ListLocks.ownedVariants.length = 2 := rfl
+
 /-- the lock facts the theorems above were checked against -/
 theorem lock_facts_as_proved :
     Gen.ListLocks.typedEqLocks = [.self_, .other] ∧ Gen.ListLocks.erasedEqLocks = [.self_, .other] ∧
